@@ -216,11 +216,11 @@ def gen_tree(rng, depth, d0, raw_ok=False):
     if o in ("rep", "rrep"):
         return {"o": o, "c": gen_tree(rng, depth - 1, d0), "k": gen_count(rng, d0)}
     n = rng.choice([2, 2, 2, 3, 1, 4])
-    how = rng.choice(["static", "op", "rop", "iop"]) if n == 2 else "static"
+    how = rng.choice(["static", "op", "rop", "iop", "gen", "iter"]) if n == 2 else rng.choice(["static", "static", "gen", "iter", "map"])
     cs = []
     for i in range(n):
         # with the operator forms one side may be a raw int / set; with the static forms any element may be raw
-        raw = (how == "static") or (how in ("op", "iop") and i == 1) or (how == "rop" and i == 0)
+        raw = (how in ("static", "gen", "iter", "map")) or (how in ("op", "iop") and i == 1) or (how == "rop" and i == 0)
         cs.append(gen_tree(rng, depth - 1, d0, raw_ok=raw))
     if how == "rop" and not cs[0].get("raw"):
         how = "op"
@@ -318,7 +318,32 @@ def gen_case(rng, tier):
     for i in live[:-1]:
         if rng.random() < 0.35:
             queries.append([i, ["min"] if rng.random() < 0.5 else ["max"], False])
-    return {"tree": tree, "queries": queries}
+    case = {"tree": tree, "queries": queries}
+    # several composites derived from ONE live operand object (a type object is shared by all its users): fixed and range
+    # repetition with the same count, two paddings, self-concatenation; afterwards the operand is queried again
+    if rng.random() < 0.35:
+        i = rng.choice(live)
+        n = rng.choice([0, 1, 2, 3, d0, 2 ** 40])
+        pool = [{"base": i, "o": "rep", "k": n}, {"base": i, "o": "rrep", "k": n}, {"base": i, "o": "pad", "a": rng.choice(ALIGNS)},
+                {"base": i, "o": "pad", "a": rng.choice(ALIGNS)}, {"base": i, "o": "cat"}, {"base": i, "o": "uni", "v": rng.randrange(0, 70)}]
+        rng.shuffle(pool)
+        extras = []
+        for ex in pool[:rng.choice([2, 3, 4])]:
+            qs = []
+            for q in (["min"], ["max"], ["mod", rng.choice(divs)], ["fixed"]):
+                if q[0] == "mod":
+                    c = [0, 0]
+                    ref_mod(extra_op(nodes, ex), q[1], c)
+                    if spent[0] + c[0] > budget or spent[1] + c[1] > mbudget:
+                        continue
+                    spent[0] += c[0]
+                    spent[1] += c[1]
+                qs.append(q)
+            ex["queries"] = qs
+            extras.append(ex)
+        case["extras"] = extras
+        case["requery"] = [[i, ["min"]], [i, ["max"]]]
+    return case
 
 
 def corpus():
@@ -347,6 +372,13 @@ def corpus():
             for o in ("uni", "cat"):
                 t = {"o": o, "cs": [lf(a), lf(b)], "how": how, "raw": False}
                 out.append({"tree": t, "queries": [[2, ["mod", 64], False], [2, ["exp"], False], [2, ["len"], False], [2, ["mod", 96], False], [0, ["exp"], False], [1, ["exp"], False]]})
+    # one operand object, fixed and range repetition with the same count (both orders)
+    for first, second in (("rep", "rrep"), ("rrep", "rep")):
+        out.append({"tree": lf([8]), "queries": [], "extras": [{"base": 0, "o": first, "k": 3, "queries": [["min"], ["max"], ["mod", 16], ["fixed"]]},
+                                                                  {"base": 0, "o": second, "k": 3, "queries": [["min"], ["max"], ["mod", 16], ["fixed"]]}], "requery": [[0, ["max"]]]})
+    for how in ("gen", "iter", "map"):
+        t = {"o": "cat", "how": how, "raw": False, "cs": [dict(lf([8]), how="int", raw=True), dict(lf([0, 8]), raw=True), dict(lf([16]), how="int", raw=True), lf([0, 8, 16, 24])]}
+        out.append({"tree": t, "queries": [[4, ["min"], False], [4, ["max"], False], [4, ["exp"], False], [4, ["mod", 8], False]]})
     # augmented assignment must not change the aliased left operand
     for o in ("cat", "uni"):
         t = {"o": o, "how": "iop", "raw": False, "cs": [lf([8, 16, 24]), lf([32])]}
@@ -445,7 +477,11 @@ def _one_case(case, BitLengthSet, raw_value, answer):
                 else:
                     ops = [objs[ids[id(c)]] for c in n["cs"]]
                     how = n.get("how", "static")
-                    if how == "static" or len(ops) != 2:
+                    if how in ("gen", "iter", "map"):
+                        # the argument is documented as any Iterable: one-shot iterators included
+                        arg = (x for x in ops) if how == "gen" else iter(list(ops)) if how == "iter" else map(lambda x: x, ops)
+                        v = BitLengthSet.concatenate(arg) if o == "cat" else BitLengthSet.unite(arg)
+                    elif how == "static" or len(ops) != 2:
                         v = BitLengthSet.concatenate(ops) if o == "cat" else BitLengthSet.unite(ops)
                     elif how == "iop" and isinstance(ops[0], BitLengthSet):
                         # augmented assignment on an alias of the left operand: the operand itself must stay what it was
@@ -464,7 +500,23 @@ def _one_case(case, BitLengthSet, raw_value, answer):
             for (i, q, e) in case["queries"]:
                 if not e:
                     answers.setdefault(i, []).append([q, answer(objs[i], q)])
-            out.append({"answers": {str(k): v for k, v in answers.items()}})
+            extras = []
+            for ex in case.get("extras", []):
+                base = objs[ex["base"]]
+                if ex["o"] == "rep":
+                    v = base.repeat(ex["k"])
+                elif ex["o"] == "rrep":
+                    v = base.repeat_range(ex["k"])
+                elif ex["o"] == "pad":
+                    v = base.pad_to_alignment(ex["a"])
+                elif ex["o"] == "cat":
+                    v = base + base
+                else:
+                    v = base | ex["v"]
+                extras.append([[q, answer(v, q)] for q in ex["queries"]])
+            for (i, q) in case.get("requery", []):
+                answers.setdefault(i, []).append([q, answer(objs[i], q)])
+            out.append({"answers": {str(k): v for k, v in answers.items()}, "extras": extras})
         except Exception as ex:  # pylint: disable=broad-except
             out.append({"error": type(ex).__name__, "text": str(ex)[:200]})
     return out[0]
@@ -503,7 +555,20 @@ def emit(case, obs):
     parts = []
     for k, qa in sorted(obs["answers"].items(), key=lambda kv: int(kv[0])):
         parts.append("(%s, %s)" % (emit_op(nodes[int(k)]), G.lst([emit_q(q, a) for q, a in qa])))
+    for ex, qa in zip(case.get("extras", []), obs.get("extras", [])):
+        parts.append("(%s, %s)" % (emit_op(extra_op(nodes, ex)), G.lst([emit_q(q, a) for q, a in qa])))
     return G.lst(parts)
+
+
+def extra_op(nodes, ex):
+    b = nodes[ex["base"]]
+    if ex["o"] in ("rep", "rrep"):
+        return {"o": ex["o"], "c": b, "k": ex["k"]}
+    if ex["o"] == "pad":
+        return {"o": "pad", "c": b, "a": ex["a"]}
+    if ex["o"] == "cat":
+        return {"o": "cat", "cs": [b, b]}
+    return {"o": "uni", "cs": [b, {"o": "leaf", "v": [ex["v"]], "how": "int", "raw": False}]}
 
 
 def model_eval(case, obs):
